@@ -114,16 +114,44 @@ where
 
 pub fn update_generic<T>(value_text: &str, target_text: &str, lossless: bool) -> Result<String, String>
 where
-    T: FromDeb822Paragraph<lossy::Paragraph> + ToDeb822Paragraph<lossy::Paragraph> + ToDeb822Paragraph<Paragraph>,
+    T: FromDeb822Paragraph<lossy::Paragraph> + ToDeb822Paragraph<lossy::Paragraph> + FromDeb822Paragraph<Paragraph> + ToDeb822Paragraph<Paragraph>,
 {
     let v = <T as FromDeb822Paragraph<lossy::Paragraph>>::from_paragraph(&lossy_para(value_text)?)?;
+    let want: lossy::Paragraph = v.to_paragraph();
+    // "@built:<text>": the target is not parsed but built by to_paragraph() from the value that <text> describes
+    let built = target_text.strip_prefix("@built:");
     if lossless {
-        let mut p = if target_text.is_empty() { Paragraph::new() } else { lossless_para(target_text)? };
+        let mut p = match built {
+            Some(t) => {
+                let other = <T as FromDeb822Paragraph<lossy::Paragraph>>::from_paragraph(&lossy_para(t)?)?;
+                <T as ToDeb822Paragraph<Paragraph>>::to_paragraph(&other)
+            }
+            None if target_text.is_empty() => Paragraph::new(),
+            None => lossless_para(target_text)?,
+        };
         <T as ToDeb822Paragraph<Paragraph>>::update_paragraph(&v, &mut p);
+        // the live paragraph reads back as the value, not only its printed text
+        let live = <T as FromDeb822Paragraph<Paragraph>>::from_paragraph(&p).map_err(|e| format!("the updated live paragraph {:?} does not read back: {}", p.to_string(), e))?;
+        let got: lossy::Paragraph = live.to_paragraph();
+        if got != want {
+            return Err(format!("the updated live paragraph {:?} reads back as {:?}, the value is {:?}", p.to_string(), got.all_items(), want.all_items()));
+        }
         Ok(p.to_string())
     } else {
-        let mut p = if target_text.is_empty() { lossy::Paragraph { fields: vec![] } } else { lossy_para(target_text)? };
+        let mut p = match built {
+            Some(t) => {
+                let other = <T as FromDeb822Paragraph<lossy::Paragraph>>::from_paragraph(&lossy_para(t)?)?;
+                <T as ToDeb822Paragraph<lossy::Paragraph>>::to_paragraph(&other)
+            }
+            None if target_text.is_empty() => lossy::Paragraph { fields: vec![] },
+            None => lossy_para(target_text)?,
+        };
         <T as ToDeb822Paragraph<lossy::Paragraph>>::update_paragraph(&v, &mut p);
+        let live = <T as FromDeb822Paragraph<lossy::Paragraph>>::from_paragraph(&p).map_err(|e| format!("the updated live paragraph {:?} does not read back: {}", p.to_string(), e))?;
+        let got: lossy::Paragraph = live.to_paragraph();
+        if got != want {
+            return Err(format!("the updated live paragraph {:?} reads back as {:?}, the value is {:?}", p.to_string(), got.all_items(), want.all_items()));
+        }
         Ok(p.to_string())
     }
 }
